@@ -167,7 +167,7 @@ func runLiveOnce(seed int64) *liveOutcome {
 				inBackoff = true
 			}
 		}
-		if n == last && q.Len() == 0 && !inBackoff && kubeletIdle.Load() && w.CachesInSync() {
+		if n == last && q.Len() == 0 && w.LiveQ.InFlight() == 0 && !inBackoff && kubeletIdle.Load() && w.CachesInSync() {
 			stable++
 		} else {
 			stable = 0
@@ -181,6 +181,25 @@ func runLiveOnce(seed int64) *liveOutcome {
 			break
 		}
 		time.Sleep(2 * time.Millisecond)
+	}
+	// a lost wake-up stays lost; an event that is merely still travelling through the informer's
+	// listener buffers on a loaded machine does not: before the verdict, sets that look unconverged get
+	// a grace period during which any activity restarts the quiescence wait
+	if out.Inconclusive == "" {
+		graceStart := time.Now()
+		for time.Since(graceStart) < 8*time.Second {
+			all := true
+			snap := srv.Snap()
+			for _, name := range names {
+				if s := w.GetSet(name); s != nil && world.Converged(snap, s) != "" {
+					all = false
+				}
+			}
+			if all {
+				break
+			}
+			time.Sleep(20 * time.Millisecond)
+		}
 	}
 	out.WaitedMs = time.Since(start).Milliseconds()
 	close(done)
